@@ -33,3 +33,8 @@ def rules(ctx):
     # a dirty page dropped by a failed write-back never reaches the next commit's flush
     S.c08_r8_flush_keeps_page(ctx)
     S.c08_r2_check_then_latch(ctx)
+    S.allocator_snapshot_complete_rules(ctx)
+    S.system_freed_store_rules(ctx)
+    S.commit_mode_setter_rules(ctx)
+    S.cache_reset_rules(ctx)
+    S.handle_close_rules(ctx)
